@@ -25,7 +25,7 @@ Theorem C08_method_resolution :
   owner H Plucker (Fwd Add) = Some (B UserList) /\
   owner H SpatialVelocity (Fwd Mul) = Some (B UserList) /\ owner H SpatialVelocity (Fwd Eq) = Some (B UserList) /\
   owner H SpatialInertia (Fwd Eq) = Some (B UserList) /\
-  owner H Twist2 (Rev Mul) = Some (B UserList) /\ owner H Twist3 (Rev Mul) = Some (C Twist3) /\
+  owner H Twist2 (Rev Mul) = Some (C Twist2) /\ owner H Twist3 (Rev Mul) = Some (C Twist3) /\
   owner H SE3 (Fwd Mul) = Some (B SMPose) /\ owner H SE3 (Rev Mul) = owner H SO3 (Rev Mul) /\
   owner H UnitDualQuaternion (Fwd Mul) = Some (C DualQuaternion) /\ owner H DualQuaternion (Rev Mul) = None /\
   owner H DualQuaternion (Fwd Eq) = Some (B PyObject).
@@ -56,25 +56,16 @@ Theorem C08_userlist_repeat_refuted : exists c, In c all_cells /\ cell_ok H c = 
 Proof. witness (cell_of 1 Mul (Obj SpatialVelocity) KInt). Qed.
 Print Assumptions C08_userlist_repeat_refuted.
 
-(* 2 * Twist2 is list repetition (the reflected method is misspelt, UserList's is found instead) *)
-Theorem C08_twist2_rmul_refuted : exists c, In c all_cells /\ cell_ok H c = false /\ model H c = Value (RObj Twist2) ListOp /\ spec_of H c = May (RObj Twist2).
-Proof. witness (cell_of 1 Mul KInt (Obj Twist2)). Qed.
-Print Assumptions C08_twist2_rmul_refuted.
-
-(* UnitDualQuaternion * DualQuaternion claims to be a unit dual quaternion *)
-Theorem C08_udq_class_refuted : exists c, In c all_cells /\ cell_ok H c = false /\ model H c = Value (RObj UnitDualQuaternion) Computed /\ spec_of H c = May (RObj DualQuaternion).
-Proof. witness (cell_of 1 Mul (Obj UnitDualQuaternion) (Obj DualQuaternion)). Qed.
-Print Assumptions C08_udq_class_refuted.
+(* int * (3-valued Twist3) is list repetition: __rmul__ multiplies right.S, which is a Python list for a multi-valued twist
+   (fix 11978d3 repaired the single-valued case only; see Props/C08_clauses.v: C08_scalar_times_twist_single) *)
+Theorem C08_twist_rmul_multi_refuted : exists c, In c all_cells /\ cell_ok H c = false /\ model H c = Value (RObj Twist3) ListOp /\ spec_of H c = May (RObj Twist3).
+Proof. witness (cell_of 3 Mul KInt (Obj Twist3)). Qed.
+Print Assumptions C08_twist_rmul_multi_refuted.
 
 (* DualQuaternion * 2.5 returns None *)
 Theorem C08_dq_mul_none_refuted : exists c, In c all_cells /\ cell_ok H c = false /\ model H c = ReturnsNone /\ spec_of H c = MustRaise.
 Proof. witness (cell_of 1 Mul (Obj DualQuaternion) KFloat). Qed.
 Print Assumptions C08_dq_mul_none_refuted.
-
-(* single-valued SE3 != SE3 raises *)
-Theorem C08_pose_ne_refuted : exists c, In c all_cells /\ cell_ok H c = false /\ model H c = Raise /\ spec_of H c = Must RBool.
-Proof. witness (cell_of 1 Ne (Obj SE3) (Obj SE3)). Qed.
-Print Assumptions C08_pose_ne_refuted.
 
 (* SpatialVelocity == SpatialVelocity raises *)
 Theorem C08_userlist_eq_refuted : exists c, In c all_cells /\ cell_ok H c = false /\ model H c = Raise /\ spec_of H c = Must RBool.
